@@ -34,6 +34,12 @@ def run_family(prop, family, tier, sizes_q, sizes_t, modes, l1, l3_calls, text, 
     r, vecs3 = statlib.gen_stats(family, 2, sizes=tuple(pw), modes=("uni",) if not thorough else ("uni", "bias75"), seeds=seeds[:1], invariants=("AlgEqualsDef",))
     run.add_tlc(r, "GenStats %s Level=2 powers of two -1/0/+1: %s" % (family, pw))
     statlib.replay(run, hz, vecs3)
+    # the regime pairs once more, all in ONE driver process (the batch above is spread over many): ascending, and -- by the
+    # reverse pass of the driver -- descending
+    pair_sizes = {600, 800, 9600, 12800}
+    vpair = [dict(v) for v in vecs3 if (len(v["bits"]) or v.get("repeat", 0)) in pair_sizes]
+    if vpair:
+        statlib.replay(run, hz, vpair, nproc=1)
     # L3: large seeded inputs, proxy summaries judged by TLC
     inputs = []
     # 1048579 > 2^20: the first length above a power-of-two block size a chunked implementation might use
